@@ -2,8 +2,8 @@
  * Every member-function body below is #included verbatim from a slice cut out of the current tree; class DataKey
  * is the real class text (extracted verbatim from datakey.h).  DataSetHost replicates the six data members of
  * DataSet (conformance-checked against dataset.h).  The C side sees the two arrays as raw int arrays:
- *    item[2*i] = theitem[i].data, item[2*i+1] = theitem[i].info;  key[2*g] = thekey[g].info, key[2*g+1] = thekey[g].idx
- * (both structs are two ints, no padding). */
+ *    item[i] = 64-bit cell {low half: theitem[i].data, high half: theitem[i].info};  key[g] = {low: thekey[g].info, high: thekey[g].idx}
+ * (both structs are two ints, no padding; an 8-byte cell per struct keeps CBMC's encoding of the cast small). */
 #include "verif.h"
 
 /* `throw SPxException("Invalid index");`  ->  verif_throw(); unreachable.  verif_throw() carries the obligation
